@@ -27,7 +27,7 @@ def shards(tier, seed):
             parts = 1 if tier == "quick" else 4
             for i in range(parts):
                 out.append({"id": "%s.%d" % (c.name, i), "cmd": c.name, "part": i, "parts": parts,
-                            "n": 250 if tier == "quick" else 5000, "small": tier == "quick"})
+                            "n": 250 if tier == "quick" else 12000, "small": tier == "quick"})
     return out
 
 
